@@ -345,6 +345,8 @@ class HTTPApiDecoder:
 
         except (KeyError, ValueError, TypeError, json.JSONDecodeError, model.AASConstraintViolation) as e:
             raise UnprocessableEntity(str(e)) from e
+        except RecursionError as e:
+            raise UnprocessableEntity("The JSON document is nested too deeply!") from e
 
         return [cls.assert_type(obj, expect_type) for obj in parsed]
 
